@@ -1,6 +1,6 @@
 (* C05: oligo rows follow input order for any threads, batching, writer path. *)
 From Coq Require Import NArith ZArith List.
-From KT Require Import Gen.Generated Gen.Alphabet Gen.GeneratedFacts Model.Kmer Model.Ops Model.Rows Model.Pipeline.
+From KT Require Import Gen.Generated Gen.Alphabet Gen.FactsBase Gen.FactLetters Gen.FactTableKmer Model.Kmer Model.Ops Model.Rows Model.Pipeline.
 From KT Require Import Proof.Sched Proof.Batch Proof.PipelineProof.
 From Coq Require Import String.
 From KT Require Model.Show.
